@@ -410,8 +410,11 @@ class CodeQ(Model):
 
 
 class CodeUnits(Model):
+    def __init__(self, tag=""):
+        self.tag = tag
+
     def __getitem__(self, k):
-        return CodeQ({"code:" + k: 1})
+        return CodeQ({"code:" + k + self.tag: 1})
 
 
 class PhysUnit(Model):
@@ -522,13 +525,15 @@ def check_sink(run, tree):
     meta = {"nout": 7, "path": "PATH", "infile": "PATH/output_00007", "ndim": 3}
     want_file = "PATH/output_00007/sink_00007.csv"
 
-    def run_case(lines, exists=True, size=100, select=True, reader=None):
+    def run_case(lines, exists=True, size=100, select=True, reader=None, units=None, shared=None):
         state = {"lines": lines, "exists": exists, "size": size, "paths": [], "loadtxt": [], "open": [], "atleast_2d": 0}
         hooks = sink_hooks(state)
+        if shared is not None:
+            hooks["_module_state"] = shared        # module- and class-level objects of the package live as long as the process
         ev = ModelEval(tree, init, {}, hooks)
         if reader is None:
             reader = ModelEval(tree, tree.method(ci, "__init__"), {}, hooks).instantiate(ci, [], {}, None)
-        ret = ev.invoke(init, [reader, meta, CodeUnits(), select], {}, None)
+        ret = ev.invoke(init, [reader, meta, units or CodeUnits(), select], {}, None)
         return ret, state, reader
     new = [" # id,msink,x,y,z,vx,vy,vz,lx\n", " # 1,m,l,l,l,l t**-1,l t**-1,l t**-1,m l**2 t**-1\n"]
     legacy = [" # id,msink,x,y,z\n", " # 1,[Msol],[cm],[cm],[cm]\n"]
@@ -618,8 +623,21 @@ def check_sink(run, tree):
             problems.append("two loads return the same group object (a sort or edit made after the first load shows up in the second)")
         if len(st2["loadtxt"]) != 1:
             problems.append("the second load parses %d tables" % len(st2["loadtxt"]))
+        # a second dataset with OTHER code units in the same process (its own reader; module- and class-level state persists)
+        shared = {}
+        run_case(new, shared=shared)
+        r3, st3, _ = run_case(new, units=CodeUnits("@B"), shared=shared)
+        stale = []
+        for k, v in (r3.items_.items() if isinstance(r3, SinkGroup) else []):
+            for a in (v.comps.values() if isinstance(v, VecTok) else [v]):
+                txt = repr((origin_of(a.values_) if isinstance(a, SinkArr) else a, getattr(getattr(a, "unit", None), "name", None)))
+                import re as _re
+                if any(not m.endswith("@B") for m in _re.findall(r"code:\w+(?:@\w+)?", txt)):
+                    stale.append(k)
+        if stale:
+            problems.append("a second dataset with other code units gets the FIRST dataset's unit factors for %s" % sorted(set(stale)))
         run.ob(construct, not problems, init.where(), "; ".join(problems[:3]) or "missing -> None; empty -> empty group; off -> None; every load parses the file into a new group",
-               "'empty' and 'missing' are confused; a sorted sink group of an earlier load is handed out again")
+               "'empty' and 'missing' are confused; a sorted sink group of an earlier load is handed out again; the sinks of a second simulation are scaled with the first one's code units")
     except (Raised, ProgramRaised) as e:
         run.violated(construct, init.where(), "raises %s" % e, "sink files")
     except ERR as e:
